@@ -42,6 +42,7 @@ type vfC16Conn struct {
 	Frames []bool `json:"frames"` // motion bit per frame
 	Clears []int  `json:"clears,omitempty"`
 	Pause  []int  `json:"pause,omitempty"` // frame indices before which the sender pauses at the barrier
+	Bad    []int  `json:"bad,omitempty"`   // frame indices before which a bad frame (zero interior pixel) is sent
 }
 
 type vfC16Case struct {
@@ -92,6 +93,10 @@ func vfGenC16(t *rapid.T) vfC16Case {
 		}
 		if rapid.IntRange(0, 2).Draw(t, "clear") == 0 {
 			cn.Clears = append(cn.Clears, rapid.IntRange(0, n).Draw(t, "clearat"))
+		}
+		if rapid.IntRange(0, 3).Draw(t, "hasbad") == 0 {
+			// bad frames, in particular as the very first frame of a connection
+			cn.Bad = append(cn.Bad, rapid.SampledFrom([]int{0, 0, 1, n / 2}).Draw(t, "badat"))
 		}
 		for j := rapid.IntRange(0, 3).Draw(t, "npause"); j > 0; j-- {
 			cn.Pause = append(cn.Pause, rapid.IntRange(0, n-1).Draw(t, "pauseat"))
@@ -340,6 +345,10 @@ func vfC16Run(c vfC16Case, withReq bool) *vfC16Obs {
 		for _, p := range cn.Pause {
 			pause[p] = true
 		}
+		bad := map[int]bool{}
+		for _, p := range cn.Bad {
+			bad[p] = true
+		}
 		clear := map[int]bool{}
 		for _, p := range cn.Clears {
 			clear[p] = true
@@ -348,6 +357,17 @@ func vfC16Run(c vfC16Case, withReq bool) *vfC16Obs {
 		for fi := range cn.Frames {
 			if clear[fi] {
 				if err := conn.Write([]byte("clear")); err != nil {
+					o.msg = fmt.Sprintf("connection %d: %v", ci, err)
+					break
+				}
+			}
+			if bad[fi] {
+				bp := make([]uint16, cam.W*cam.H)
+				for p := range bp {
+					bp[p] = 7
+				}
+				bp[2*cam.W+3] = 0
+				if err := conn.SendFrame(vfRawFrame(cam, bp, uint32(60000+111*id), 0, 0), nil); err != nil {
 					o.msg = fmt.Sprintf("connection %d: %v", ci, err)
 					break
 				}
@@ -510,6 +530,6 @@ func vfRunC16(c vfC16Case) *kit.Result {
 
 func TestVF_C16(t *testing.T) {
 	kit.Drive(t, "C16", "TestVF_C16",
-		"generated schedules: 1-4 requester goroutines looping over scripts of {TakeSnapshot(-1 / last id), TakeTestRecording, CameraInfo, spin, yield, sleep} while 1-3 camera connections (reconnects, 'clear' markers, sender pauses at the lock-step barrier) feed uniform-valued frames of increasing value, GOMAXPROCS in {1,2,4,16}, ring capacity 1 and up; built with the race detector. Oracle: every returned snapshot is uniform (a whole frame), stays unchanged while later frames arrive (an exact copy, re-checked after the ring has wrapped), and is at least as new as the newest frame known to be completely processed when the request started; CameraInfo returns a description some camera sent; the pipeline neither stalls nor dies; continuous files equal the request-free twin and every motion file of the twin is present unchanged (extra files are 21-frame test recordings); zero race reports. Non-trivial: a snapshot was returned for a request that overlapped the processing of a frame (measured with atomics around the barrier).",
+		"generated schedules: 1-4 requester goroutines looping over scripts of {TakeSnapshot(-1 / last id), TakeTestRecording, CameraInfo, spin, yield, sleep} while 1-3 camera connections (reconnects, 'clear' markers, bad frames - also as the first frame of a connection -, sender pauses at the lock-step barrier) feed uniform-valued frames of increasing value, GOMAXPROCS in {1,2,4,16}, ring capacity 1 and up; built with the race detector. Oracle: every returned snapshot is uniform (a whole frame), stays unchanged while later frames arrive (an exact copy, re-checked after the ring has wrapped), and is at least as new as the newest frame known to be completely processed when the request started; CameraInfo returns a description some camera sent; the pipeline neither stalls nor dies; continuous files equal the request-free twin and every motion file of the twin is present unchanged (extra files are 21-frame test recordings); zero race reports. Non-trivial: a snapshot was returned for a request that overlapped the processing of a frame (measured with atomics around the barrier).",
 		vfGenC16, vfRunC16)
 }
